@@ -185,12 +185,24 @@ class MediaList(cssutils.util._NewListBase):
     def __setitem__(self, index, newMedium):
         """Overwriting ListSeq.__setitem__
 
-        Any duplicate items are **not yet** removed.
+        A medium already in the list is removed, "all" replaces all media.
         """
-        # TODO: remove duplicates?
         newMedium = self.__prepareset(newMedium)
         if newMedium:
+            newmt = normalize(newMedium.mediaType)
+            index = self._seqindex(index)
             self._seq[index] = (newMedium, 'MediaQuery', None, None)
+            # keep the list canonical: "all" is the only medium, any other
+            # medium is in the list only once
+            for i in reversed(range(len(self._seq))):
+                item = self._seq[i]
+                if (
+                    i != index
+                    and item.type == 'MediaQuery'
+                    and (newmt == 'all' or normalize(item.value.mediaType) == newmt)
+                    and newmt
+                ):
+                    del self._seq[i]
 
     def appendMedium(self, newMedium):
         """Add the `newMedium` to the end of the list.
